@@ -321,6 +321,28 @@ func (tree *HTree) remove(ki *KeyInfo, oldPos Position) {
 	}
 }
 
+// updatePos repoints the item of ki from oldPos to newPos, atomically and only if the
+// item still points at oldPos (version and value hash are kept).
+func (tree *HTree) updatePos(ki *KeyInfo, oldPos, newPos Position) bool {
+	tree.Lock()
+	defer tree.Unlock()
+
+	var req HTreeReq
+	req.ki = ki
+	tree.getLeaf(ki, &tree.ni)
+	if !tree.leafs[tree.ni.offset].Get(&req) || req.item.Pos != oldPos {
+		return false
+	}
+	req.item.Keyhash = ki.KeyHash
+	req.item.Pos = newPos
+	tree.getLeafAndInvalidNodes(ki, &tree.ni)
+	tree.setToLeaf(&tree.ni, &req)
+	if utils.VerifOn {
+		utils.Verif("tree.set", tree.bucketID, tree.depth, ki.KeyHash, newPos.ChunkID, newPos.Offset, req.item.Ver, req.item.Vhash)
+	}
+	return true
+}
+
 func (tree *HTree) get(ki *KeyInfo) (meta *Meta, pos Position, found bool) {
 	var req HTreeReq
 	req.ki = ki
